@@ -32,26 +32,26 @@ type Hook struct {
 
 // Step is one logger-derivation step.
 type Step struct {
-	With    []Op  `json:"with,omitempty"`   // l = l.With().<ops>.Logger()   (IsWith distinguishes empty With())
-	IsWith  bool  `json:"isWith,omitempty"`
-	Update  []Op  `json:"update,omitempty"` // l.UpdateContext(func(c) { return <ops> })
-	IsUpd   bool  `json:"isUpd,omitempty"`
-	Hook    *Hook `json:"hook,omitempty"`   // l = l.Hook(h)
-	Level   *int  `json:"level,omitempty"`  // l = l.Level(x)
-	Output  bool  `json:"output,omitempty"` // l = l.Output(same destination)
-	GoCtx   *int  `json:"goctx,omitempty"`  // l = l.With().Ctx(ctx#n).Logger()
+	With   []Op  `json:"with,omitempty"` // l = l.With().<ops>.Logger()   (IsWith distinguishes empty With())
+	IsWith bool  `json:"isWith,omitempty"`
+	Update []Op  `json:"update,omitempty"` // l.UpdateContext(func(c) { return <ops> })
+	IsUpd  bool  `json:"isUpd,omitempty"`
+	Hook   *Hook `json:"hook,omitempty"`   // l = l.Hook(h)
+	Level  *int  `json:"level,omitempty"`  // l = l.Level(x)
+	Output bool  `json:"output,omitempty"` // l = l.Output(same destination)
+	GoCtx  *int  `json:"goctx,omitempty"`  // l = l.With().Ctx(ctx#n).Logger()
 }
 
 type Program struct {
-	ID     string   `json:"id"`
-	Set    Settings `json:"set"`
-	Derive []Step   `json:"derive,omitempty"`
-	Entry  string   `json:"entry,omitempty"` // "" = WithLevel(Level); or Trace..Panic, Log, Err
-	Level  int      `json:"level"`           // zerolog level number (6 = NoLevel)
-	Ev     []Op     `json:"ev,omitempty"`
-	Fin    string   `json:"fin,omitempty"` // Msg (default) | Msgf | MsgFunc | Send
-	Msg    B        `json:"msg,omitempty"`
-	Abs    interface{} `json:"abs,omitempty"` // the abstract program this was concretised from (echoed into the recording)
+	ID     string      `json:"id"`
+	Set    Settings    `json:"set"`
+	Derive []Step      `json:"derive,omitempty"`
+	Entry  string      `json:"entry,omitempty"` // "" = WithLevel(Level); or Trace..Panic, Log, Err
+	Level  int         `json:"level"`           // zerolog level number (6 = NoLevel)
+	Ev     []Op        `json:"ev,omitempty"`
+	Fin    string      `json:"fin,omitempty"` // Msg (default) | Msgf | MsgFunc | Send
+	Msg    B           `json:"msg,omitempty"`
+	Abs    interface{} `json:"abs,omitempty"`    // the abstract program this was concretised from (echoed into the recording)
 	Opaque []string    `json:"opaque,omitempty"` // member names whose value comes from an external marshaler (json.Marshal, RawJSON)
 }
 
@@ -123,12 +123,12 @@ func (stackObj) MarshalZerologObject(e *zerolog.Event) { e.Str("frame", "f") }
 func ApplySettings(s Settings) func() {
 	o := struct {
 		lf, mf, ef, tf string
-		du            time.Duration
-		di            bool
-		fp            int
-		em            func(error) interface{}
-		sm            func(error) interface{}
-		ts            func() time.Time
+		du             time.Duration
+		di             bool
+		fp             int
+		em             func(error) interface{}
+		sm             func(error) interface{}
+		ts             func() time.Time
 	}{zerolog.LevelFieldName, zerolog.MessageFieldName, zerolog.ErrorFieldName, zerolog.TimeFieldFormat, zerolog.DurationFieldUnit,
 		zerolog.DurationFieldInteger, zerolog.FloatingPointPrecision, zerolog.ErrorMarshalFunc, zerolog.ErrorStackMarshaler, zerolog.TimestampFunc}
 	zerolog.TimestampFunc = func() time.Time { return FixedTime }
